@@ -1,10 +1,41 @@
 package main
 
-import "go/token"
+import (
+	"go/ast"
+	"go/token"
+	"strings"
+)
 
-// lock discipline: filled in by the concurrency layer (see conc.go when present)
+// Lock discipline: a contract clause `guarded Type.field by <mutex expr>` turns every load and
+// store of that field into an obligation held(<mutex expr>) (kind "lock").
 func (ex *Exec) lockCheck(p PtrV, write bool, pos token.Pos) {
-	if ex.lockHook != nil {
-		ex.lockHook(p, write, pos)
+	if ex.top == nil || ex.top.contract == nil || len(ex.top.contract.Guarded) == 0 || ex.inYield {
+		return
+	}
+	if p.Kind != pObj || len(p.Path) == 0 {
+		return
+	}
+	name := typeName(p.Root) + pathString(p.Root, p.Path)
+	for _, g := range ex.top.contract.Guarded {
+		if !strings.HasSuffix(name, g.Label) {
+			continue
+		}
+		env := ex.topEnv()
+		env.fr = ex.fr
+		mu := ex.eval(g.E, ex.st, env)
+		r := ex.scalarOf(mu.V)
+		h := ex.heapGet("ghost<held>", ArrSort(SInt, SBool))
+		what := "read"
+		if write {
+			what = "write"
+		}
+		txt := ex.anchorText(pos, func(n ast.Node) bool {
+			switch n.(type) {
+			case *ast.SelectorExpr, *ast.AssignStmt, *ast.IncDecStmt:
+				return true
+			}
+			return false
+		})
+		ex.vc.Oblige("lock", what+" "+g.Label+":"+txt, ex.st.pc, Sel(h, r), ex.posString(pos))
 	}
 }
